@@ -1,6 +1,6 @@
 ---------------------------------- MODULE GenNetwork ----------------------------------
 (* Plan generator for C15: one TLC state per operand network (3 or 4 operands, ranks <= MaxRank,     *)
-(* labels 1..5/6, no label more than twice, at least one contraction, result rank >= 1) with an extent  *)
+(* labels 1..5/6, no label more than twice, at least one contraction, result rank >= 0) with an extent  *)
 (* assignment and an element type.  Extents are either uniform (so that a wrongly ordered result still     *)
 (* has the declared static type) or distinct per label (so that a wrong order changes the extents).       *)
 (* Invariants: the network is well formed for Einsum.tla and its L1 result shape is the shape of the      *)
@@ -15,7 +15,7 @@ ListsR == {<<a>> : a \in Labs} \cup {p \in {<<a, b>> : a \in Labs, b \in Labs} :
 Cat(ls) == FoldLeft(LAMBDA acc, x : acc \o x, <<>>, ls)
 OKNet(ls) == LET L == Cat(ls) IN /\ \A p \in DOMAIN L : Occ(L, L[p]) <= 2
                                  /\ \E p \in DOMAIN L : Occ(L, L[p]) = 2
-                                 /\ \E p \in DOMAIN L : Occ(L, L[p]) = 1
+                                 \* (a network with no free label is a full contraction: the result is a rank-0 tensor)
                                  \* canonical: labels are introduced in increasing order (1 first, then 2, ...)
                                  /\ \A p \in DOMAIN L : \A x \in 1..(L[p] - 1) : \E q \in 1..(p - 1) : L[q] = x
                                  \* no pair of operands contracts to a scalar: a rank-0 intermediate does not compile in any configuration
